@@ -167,6 +167,10 @@ HOOK_PROJECTS = {
     'cycle-2': ({'main.ucg': 'let a = import "a.ucg";\n', 'a.ucg': 'let b = import "b.ucg";\n', 'b.ucg': 'let a = import "./a.ucg";\n'}, 'cycle', {}),
     'cycle-self': ({'main.ucg': 'let a = import "./main.ucg";\n'}, 'cycle', {}),
     'cycle-3-respelled': ({'main.ucg': 'let a = import "a.ucg";\n', 'a.ucg': 'let b = import "d/b.ucg";\n', 'd/b.ucg': 'let c = import "../c.ucg";\n', 'c.ucg': 'let a = import "d/../a.ucg";\n'}, 'cycle', {}),
+    'cycle-via-selector': ({'main.ucg': 'let a = (import "a.ucg").x;\n', 'a.ucg': 'let x = (import "b.ucg").y;\n', 'b.ucg': 'let y = (import "./a.ucg").x;\n'}, 'cycle', {}),
+    'cycle-in-func-body': ({'main.ucg': 'let a = import "a.ucg";\nlet r = a.f(1);\n', 'a.ucg': 'let f = func (x) => (import "b.ucg").g(x);\n',
+                            'b.ucg': 'let g = func (x) => (import "a.ucg").f(x);\n'}, 'cycle-or-ok-no-crash', {}),
+    'cycle-in-tuple-field': ({'main.ucg': 'let a = import "a.ucg";\n', 'a.ucg': 'let t = {b = import "b.ucg"};\n', 'b.ucg': 'let t = [import "a.ucg"];\n'}, 'cycle', {}),
     'missing-file': ({'main.ucg': 'let a = import "nosuch.ucg";\n'}, 'error', {}),
 }
 
@@ -220,6 +224,8 @@ def harness_hook(ctx, case):
             report('cycle-without-diagnostic', 'an import cycle fails without an import-cycle diagnostic: %s' % stderr[-200:])
         else:
             out['sample'] = {'project': case['project'], 'diagnostic': stderr[-120:]}
+    elif expect == 'cycle-or-ok-no-crash':
+        out['sample'] = {'project': case['project'], 'exit': exited}
     else:
         if exited == 0:
             report('missing-import-builds', 'importing a missing file builds')
@@ -268,6 +274,8 @@ def judge_project(fw, v):
         return r['rc'] != 0 or r['stderr'].count('TRACE') != c['traces']
     if c['expect'] == 'cycle':
         return r['rc'] == 0 or 'cycle' not in r['stderr'].lower()
+    if c['expect'] == 'cycle-or-ok-no-crash':
+        return r['rc'] not in (0, 1)
     return r['rc'] == 0
 
 
